@@ -1,9 +1,9 @@
-\* exhaustive: directory without an entry of its own (e/f), missing paths, the root, an empty file
+\* generation (special family, replayed in every run under two fixed option sets): two directory levels with hard links
 CONSTANTS
-    UseEntries = {1, 2, 3, 4, 5, 11}
-    PrioAlphabet = {"e/f", "a/x", "./a/c", "/", "e", "d"}
+    UseEntries = {17, 18, 19, 20, 21}
+    PrioAlphabet = {"u/v/y", "./u/w/z", "/u/v/x", "u/v/"}
     MaxTar = 3
-    MaxPrio = 2
+    MaxPrio = 1
     WithLayout = FALSE
     LayoutOpts <- OptsNone
     ImplicitParents = TRUE
@@ -18,7 +18,6 @@ CONSTANTS
     LastDupWins = TRUE
     LandmarkOwnStream = TRUE
     VisitingIsPath = TRUE
-INIT Init
-NEXT Next
-INVARIANTS ExactlyOneLandmark EachAtMostOnce NothingLostOrDuplicated PrioritizedFirstInOrder ParentsAndTargetsBefore RestKeepsRelativeOrder MissingAbortsOrIsReported ImportIsEff
+INIT GenInit
+NEXT GenNext
 CHECK_DEADLOCK FALSE
